@@ -277,6 +277,26 @@ RCU_ASSUME = ["seq_cst atomics are interleaved cells; the plain fields deleted /
               "is released, the list is destroyed only after every handle has been released"]
 
 
+C05_ENTRY = dict(
+    lean_files=["ConcVerif/Props/C05.lean"], components=["rcu"], stage="A",
+    level_text="Lean 4 theorems (kernel-checked; unbounded readers / writers, client programs and interleavings) over the "
+               "executable model of rcu_list.hpp + rcu_guarded.hpp, layered as DESIGN 7.4 / 8.C05. Log layer (R1-R5): every "
+               "access to a log record hits a constructed record, a record is deallocated only once, at most one thread is in "
+               "the reclaim phase, and a node is destroyed / freed by a release only while every record older than the "
+               "reclaimer's own (still active) record is inactive (grace period). List layer (N2-N4): every node a registered "
+               "handle can name (its iterator, the node erase works on / returns, the next of a protected unlinked node) is "
+               "protected - linked, or being erased, or named by a zombie record above the handle's record on the log - and "
+               "every access to the memory of a list node (next, back, deleted, data) by any thread hits a node whose ledger "
+               "state is constructed-not-destroyed. The ledger is ghost state the model never consults. Tie: trace acceptance "
+               "of the unmodified headers with the tracing, QUARANTINING allocator (freed blocks are never reused, so any "
+               "touch of freed memory is visible by name), the plain-access tap over the whole arena and an executable copy "
+               "of the invariants evaluated on every state of every trace.",
+    level_note="Trusted: Lean kernel (+propext, Classical.choice, Quot.sound), seq_cst atomics / mutex / plain fields as "
+               "interleaved cells (C07 carries the memory-model half), shim + tap + allocator + scheduler + driver glue. Client "
+               "obligation: an iterator is not used after its handle was released (the model's `it` dies with the handle).",
+    trusted_base=RCU_TRUST, assumptions=RCU_ASSUME, partial=[],
+)
+
 PARTS = {
     "C14": dict(
         lean_files=["ConcVerif/Props/C14_rcu.lean"], components=["rcu"],
@@ -306,6 +326,7 @@ def register(PROPS, COMPONENTS):
                              # emplace(pos), cbegin, cend; operator-- reads node::prev, which does not exist (does not compile)
                              inst_allow=[r"^rcu_list::clear$", r"^rcu_list::insert$", r"^rcu_list::emplace$", r"^rcu_list::cbegin$",
                                          r"^rcu_list::cend$", r"::operator--$"])
+    PROPS["C05"] = C05_ENTRY
     PROPS["C13"] = dict(
         lean_files=["ConcVerif/Props/C13.lean"], components=["rcu"], stage="A",
         level_text="Lean 4 theorems (kernel-checked; unbounded threads, client programs, interleavings, spurious CAS failures and "
